@@ -224,3 +224,265 @@ Proof.
   intros b [|i] H; [exact H|]. apply suffixed_valid. unfold valid_name in H. apply andb_true_iff in H. tauto.
 Qed.
 
+
+(* ================================================================= list plumbing *)
+Lemma map_fst_combine : forall {A B} (l1 : list A) (l2 : list B),
+  length l1 = length l2 -> map fst (combine l1 l2) = l1.
+Proof.
+  induction l1 as [|a l1 IH]; intros [|b l2] H; simpl in *; try reflexivity; try discriminate.
+  f_equal. apply IH. lia.
+Qed.
+Lemma map_snd_combine : forall {A B} (l1 : list A) (l2 : list B),
+  length l1 = length l2 -> map snd (combine l1 l2) = l2.
+Proof.
+  induction l1 as [|a l1 IH]; intros [|b l2] H; simpl in *; try reflexivity; try discriminate.
+  f_equal. apply IH. lia.
+Qed.
+
+Lemma insert_perm : forall {A} (leb : A -> A -> bool) x l, Permutation (insert leb x l) (x :: l).
+Proof.
+  induction l as [|y l IH]; simpl; [reflexivity|].
+  destruct (leb x y); [reflexivity|]. rewrite IH. apply perm_swap.
+Qed.
+Lemma isort_perm : forall {A} (leb : A -> A -> bool) l, Permutation (isort leb l) l.
+Proof.
+  induction l as [|x l IH]; simpl; [reflexivity|]. unfold isort in *. simpl.
+  rewrite insert_perm. constructor. exact IH.
+Qed.
+Lemma isort_length : forall {A} (leb : A -> A -> bool) l, length (isort leb l) = length l.
+Proof. intros. apply Permutation_length, isort_perm. Qed.
+
+Lemma Forall2_Forall_r : forall {A B} (R : A -> B -> Prop) (P : A -> Prop) (Q : B -> Prop) l1 l2,
+  (forall a b, P a -> R a b -> Q b) -> Forall P l1 -> Forall2 R l1 l2 -> Forall Q l2.
+Proof.
+  intros A B R P Q l1 l2 H HP HR. induction HR as [|a b l1 l2 Hab _ IH]; [constructor|].
+  inversion HP; subst. constructor; [eapply H; eauto | apply IH; assumption].
+Qed.
+
+(* ================================================================= dataclass fields *)
+(* For EVERY list of properties: the field names are pairwise distinct, none is dropped, and the wire keys are
+   exactly the schema's property names (in the generator's sorted order). *)
+Theorem dedup_fields_nodup : forall props,
+  NoDup (map snd (dedup_fields props))
+  /\ length (dedup_fields props) = length props
+  /\ Permutation (map fst (dedup_fields props)) (map fst props).
+Proof.
+  intro props. unfold dedup_fields. cbv zeta.
+  set (keys := map fst (isort prop_leb props)).
+  assert (Hlen : length keys = length (assign cand_us2 [] (map method_name keys)))
+    by (rewrite assign_length, map_length; reflexivity).
+  split; [|split].
+  - rewrite map_snd_combine by exact Hlen. apply assign_nodup. exact cand_us2_inj.
+  - rewrite combine_length, <- Hlen, Nat.min_id. subst keys. rewrite map_length. apply isort_length.
+  - rewrite map_fst_combine by exact Hlen. subst keys. apply Permutation_map, isort_perm.
+Qed.
+
+(* ... and every field name is a valid identifier when every property name has an ASCII letter or digit (F20b) *)
+Theorem dedup_fields_valid : forall props,
+  forallb (fun p => has_alnum (fst p)) props = true ->
+  Forall (fun n => valid_name n = true) (map snd (dedup_fields props)).
+Proof.
+  intros props G. unfold dedup_fields. cbv zeta.
+  set (keys := map fst (isort prop_leb props)).
+  rewrite map_snd_combine by (rewrite assign_length, map_length; reflexivity).
+  eapply (Forall2_Forall_r _ (fun b => valid_name b = true)); [| |apply assign_shape].
+  - intros b x Hb [i ->]. apply cand_us2_valid, Hb.
+  - apply Forall_forall. intros b Hb. apply in_map_iff in Hb. destruct Hb as [k [<- Hk]].
+    apply method_name_valid_partial. subst keys. apply in_map_iff in Hk. destruct Hk as [p [<- Hp]].
+    rewrite forallb_forall in G. apply G. eapply Permutation_in; [apply isort_perm | exact Hp].
+Qed.
+
+(* ================================================================= enum members *)
+Lemma all_some_spec : forall {A} (l : list (option A)) xs, all_some l = Some xs -> l = map Some xs.
+Proof.
+  induction l as [|o l IH]; intros xs H; simpl in H.
+  - inversion H. reflexivity.
+  - destruct o as [x|]; [|discriminate]. destruct (all_some l) as [ys|]; [|discriminate].
+    inversion H; subst. simpl. f_equal. apply IH. reflexivity.
+Qed.
+
+Lemma all_some_total : forall {A B} (f : A -> option B) l,
+  (forall a, exists b, f a = Some b) -> exists ys, all_some (map f l) = Some ys /\ length ys = length l.
+Proof.
+  intros A B f l Hf. induction l as [|a l [ys [E Hl]]]; simpl; [exists []; split; reflexivity|].
+  destruct (Hf a) as [b Eb]. rewrite Eb, E. exists (b :: ys). split; [reflexivity | simpl; lia].
+Qed.
+
+Section EnumDedup.
+  Variable u_upper : N -> str.
+  (* total (never raises), names pairwise distinct, one per value, all valid — for ALL value lists *)
+  Theorem dedup_enum_ok : forall vals,
+    exists ns, dedup_enum (enum_member_str u_upper) vals = Some ns
+      /\ NoDup ns /\ length ns = length vals /\ Forall (fun n => valid_name n = true) ns.
+  Proof.
+    intro vals. unfold dedup_enum.
+    destruct (all_some_total (enum_member_str u_upper) vals) as [ys [E Hl]].
+    { intro v. destruct (enum_member_str_valid u_upper v) as [n [En _]]. eauto. }
+    rewrite E. eexists. split; [reflexivity|]. split; [|split].
+    - apply assign_nodup, cand_us1_inj.
+    - rewrite assign_length. exact Hl.
+    - eapply (Forall2_Forall_r _ (fun b => valid_name b = true)); [| |apply assign_shape].
+      + intros b x Hb [i ->]. apply cand_us1_valid, Hb.
+      + apply Forall_forall. intros b Hb.
+        apply all_some_spec in E.
+        assert (Hin : In (Some b) (map (enum_member_str u_upper) vals)) by (rewrite E; apply in_map; exact Hb).
+        apply in_map_iff in Hin. destruct Hin as [v [Ev _]].
+        destruct (enum_member_str_valid u_upper v) as [n [En Hv]]. congruence.
+  Qed.
+End EnumDedup.
+
+(* ================================================================= class names and module stems *)
+Theorem dedup_models_nodup : forall raw,
+  let out := dedup_models raw in
+  NoDup (map (fun x => fst (snd x)) out) /\ NoDup (map (fun x => snd (snd x)) out)
+  /\ length out = length raw /\ Permutation (map fst out) (seq 0 (length raw)).
+Proof.
+  intro raw. unfold dedup_models. cbv zeta.
+  set (names := map class_name raw).
+  set (sorted := isort name_leb (combine names (seq 0 (length names)))).
+  set (ns := map fst sorted).
+  set (cls := assign cand_class [] (map class_name ns)).
+  set (stems := assign cand_us2 [] (map module_name_tok ns)).
+  assert (Lc : length cls = length ns) by (subst cls; rewrite assign_length, map_length; reflexivity).
+  assert (Ls : length stems = length ns) by (subst stems; rewrite assign_length, map_length; reflexivity).
+  assert (Ln : length ns = length raw).
+  { subst ns sorted. rewrite map_length, isort_length, combine_length, seq_length, Nat.min_id.
+    subst names. apply map_length. }
+  assert (Lcs : length (combine cls stems) = length ns) by (rewrite combine_length; lia).
+  assert (Lidx : length (map snd sorted) = length ns) by (subst ns; rewrite !map_length; reflexivity).
+  split; [|split; [|split]].
+  - rewrite <- (map_map snd fst). rewrite map_snd_combine by lia.
+    rewrite map_fst_combine by lia. subst cls. apply assign_nodup, cand_class_inj.
+  - rewrite <- (map_map snd snd). rewrite map_snd_combine by lia.
+    rewrite map_snd_combine by lia. subst stems. apply assign_nodup, cand_us2_inj.
+  - rewrite combine_length. lia.
+  - rewrite map_fst_combine by lia. subst sorted.
+    rewrite (Permutation_map snd (isort_perm name_leb _)).
+    rewrite map_snd_combine by (rewrite seq_length; reflexivity).
+    subst names. rewrite map_length. reflexivity.
+Qed.
+
+(* ================================================================= operation ids *)
+Lemma dedup_ops_go_length : forall ids seen, length (dedup_ops_go seen ids) = length ids.
+Proof.
+  induction ids as [|id r IH]; intro seen; simpl; [reflexivity|].
+  destruct (alookup (method_name id) seen); simpl; rewrite IH; reflexivity.
+Qed.
+
+(* none dropped, order kept, every new id extends the old one *)
+Theorem dedup_ops_prefix : forall ids,
+  Forall2 (fun old new => prefixb old new = true) ids (dedup_ops ids).
+Proof.
+  intro ids. unfold dedup_ops. generalize (@nil (str * N)).
+  assert (P : forall a b, prefixb a (a ++ b) = true).
+  { induction a as [|x a IH]; intro b; simpl; [reflexivity|]. rewrite N.eqb_refl. apply IH. }
+  induction ids as [|id r IH]; intro seen; simpl; [constructor|].
+  destruct (alookup (method_name id) seen); constructor; try apply IH.
+  - apply P.
+  - rewrite <- (app_nil_r id) at 2. apply P.
+Qed.
+
+(* keys of the counter map = method names seen so far *)
+Lemma alookup_none_not_in : forall {V} (d : list (str * V)) k, alookup k d = None -> ~ In k (map fst d).
+Proof.
+  induction d as [|[k' v] d IH]; intros k H; simpl in *; [tauto|].
+  destruct (str_eqb k k') eqn:E; [discriminate|]. apply str_eqb_neq in E.
+  intros [Hk|Hk]; [congruence | exact (IH k H Hk)].
+Qed.
+Lemma alookup_in_none : forall {V} (d : list (str * V)) k, ~ In k (map fst d) -> alookup k d = None.
+Proof.
+  induction d as [|[k' v] d IH]; intros k H; simpl in *; [reflexivity|].
+  destruct (str_eqb k k') eqn:E.
+  - apply str_eqb_eq in E. subst. exfalso. apply H. left. reflexivity.
+  - apply IH. tauto.
+Qed.
+Lemma aset_keys_new : forall {V} (d : list (str * V)) k v, alookup k d = None -> map fst (aset d k v) = map fst d ++ [k].
+Proof.
+  induction d as [|[k' v'] d IH]; intros k v H; simpl in *; [reflexivity|].
+  destruct (str_eqb k k'); [discriminate|]. simpl. rewrite IH by exact H. reflexivity.
+Qed.
+
+(* when the derived method names are already distinct the loop changes nothing *)
+Lemma dedup_ops_go_id : forall ids seen,
+  NoDup (map method_name ids) -> (forall id, In id ids -> ~ In (method_name id) (map fst seen)) ->
+  dedup_ops_go seen ids = ids.
+Proof.
+  induction ids as [|id r IH]; intros seen Hnd Hfresh; simpl; [reflexivity|].
+  rewrite (alookup_in_none seen _ (Hfresh id (or_introl eq_refl))).
+  inversion Hnd as [|? ? Hnotin Hnd']; subst. f_equal. apply IH; [exact Hnd'|].
+  intros id' Hin. rewrite aset_keys_new by (apply alookup_in_none, Hfresh; left; reflexivity).
+  intro H. apply in_app_or in H. destruct H as [H|[H|[]]].
+  - apply (Hfresh id' (or_intror Hin)). exact H.
+  - apply Hnotin. rewrite H. apply in_map. exact Hin.
+Qed.
+
+Theorem dedup_ops_fixpoint : forall ids, NoDup (map method_name ids) -> dedup_ops ids = ids.
+Proof. intros ids H. apply dedup_ops_go_id; [exact H | intros id _ []]. Qed.
+
+(* idempotent whenever the first pass achieved distinct method names (i.e. outside F07a) *)
+Theorem dedup_ops_idempotent_partial : forall ids,
+  NoDup (map method_name (dedup_ops ids)) -> dedup_ops (dedup_ops ids) = dedup_ops ids.
+Proof. intros ids H. apply dedup_ops_fixpoint, H. Qed.
+
+Definition w_F07a : list str := [[102;111;111]; [102;111;111]; [102;111;111;95;50]].   (* foo, foo, foo_2 *)
+Lemma refuted_F07a :
+  guard_F07a w_F07a = false
+  /\ nodupb (map method_name (dedup_ops w_F07a)) = false
+  /\ dedup_ops (dedup_ops w_F07a) <> dedup_ops w_F07a.
+Proof. split; [|split]; vm_compute; [reflexivity | reflexivity | discriminate]. Qed.
+
+(* ================================================================= endpoint parameters *)
+Lemma nodupb_NoDup : forall l, nodupb l = true <-> NoDup l.
+Proof.
+  induction l as [|x l IH]; simpl; [split; [constructor | reflexivity]|].
+  rewrite andb_true_iff, negb_true_iff, IH. split.
+  - intros [H1 H2]. constructor; [|exact H2]. intro Hin. apply mem_str_In in Hin. congruence.
+  - intro H. inversion H; subst. split; [|assumption].
+    destruct (mem_str x l) eqn:E; [apply mem_str_In in E; contradiction | reflexivity].
+Qed.
+
+Lemma add_missing_nodup : forall vars acc, NoDup acc -> NoDup (add_missing vars acc) /\ incl acc (add_missing vars acc).
+Proof.
+  induction vars as [|v r IH]; intros acc H; simpl; [split; [exact H | apply incl_refl]|].
+  destruct (mem_str (method_name v) acc) eqn:E; [apply IH, H|].
+  assert (Hn : NoDup (acc ++ [method_name v])).
+  { apply Permutation_NoDup with (l := method_name v :: acc).
+    - apply Permutation_cons_append.
+    - constructor; [|exact H]. intro Hin. apply mem_str_In in Hin. congruence. }
+  destruct (IH _ Hn) as [H1 H2]. split; [exact H1|].
+  intros x Hx. apply H2. apply in_or_app. left. exact Hx.
+Qed.
+
+(* outside F04c / F20j: the signature has pairwise distinct names and contains every declared parameter and the body *)
+Theorem params_partial : forall names body vars,
+  guard_F04c names = true -> guard_F20j names body = true ->
+  NoDup (params names body vars)
+  /\ incl (map method_name names) (params names body vars)
+  /\ (forall b, body = Some b -> In b (params names body vars)).
+Proof.
+  intros names body vars G1 G2. unfold params. cbv zeta.
+  apply nodupb_NoDup in G1.
+  set (ps := map method_name names) in *.
+  assert (H1 : NoDup (match body with Some b => if mem_str b ps then ps else ps ++ [b] | None => ps end)
+               /\ incl ps (match body with Some b => if mem_str b ps then ps else ps ++ [b] | None => ps end)
+               /\ forall b, body = Some b -> In b (match body with Some b => if mem_str b ps then ps else ps ++ [b] | None => ps end)).
+  { destruct body as [b|]; [|split; [exact G1 | split; [apply incl_refl | discriminate]]].
+    unfold guard_F20j in G2. fold ps in G2. apply negb_true_iff in G2. rewrite G2.
+    split; [|split].
+    - apply Permutation_NoDup with (l := b :: ps); [apply Permutation_cons_append|].
+      constructor; [|exact G1]. intro Hin. apply mem_str_In in Hin. congruence.
+    - apply incl_appl, incl_refl.
+    - intros b' E. inversion E; subst. apply in_or_app. right. left. reflexivity. }
+  destruct H1 as [Hn [Hi Hb]]. destruct (add_missing_nodup vars _ Hn) as [H2 H3].
+  split; [exact H2 | split].
+  - intros x Hx. apply H3, Hi, Hx.
+  - intros b E. apply H3, Hb, E.
+Qed.
+
+Definition w_F04c : list str := [[117;115;101;114;45;105;100]; [117;115;101;114;95;105;100]].  (* user-id, user_id *)
+Definition s_body : str := [98;111;100;121].
+Lemma refuted_F04c : guard_F04c w_F04c = false /\ nodupb (params w_F04c None []) = false.
+Proof. split; vm_compute; reflexivity. Qed.
+Lemma refuted_F20j : guard_F04c [s_body] = true /\ guard_F20j [s_body] (Some s_body) = false
+  /\ length (params [s_body] (Some s_body) []) = 1%nat.
+Proof. repeat split; vm_compute; reflexivity. Qed.
